@@ -35,6 +35,17 @@
 //      derived_as_fresh : a derived object that compares equal (operator==, both ways) to the freshly constructed object of the
 //                  configuration gives the same coordinates (tolerance), the same detector pairs for every bin and the same bin
 //                  for EVERY detector pair (exactly).
+//   what=coords with der=5;gs=<setter> : GEOMETRY SETTERS on a clone of a used object of the configuration itself (warm-up queries first):
+//                  gs=1 set_ring_spacing(1.5x); gs=5 (arc-corrected) set_azimuthal_angle_offset(+ a quarter view step); gs=6 (arc-corrected)
+//                  set_tangential_sampling(0.75x): the object's geometry is no longer that of any freshly constructible configuration, the
+//                  oracle is SELF-CONSISTENCY with the object's OWN sampling: all clauses above with the reference geometry built from the
+//                  object's own ring spacing / azimuthal offset / tangential sampling (detector positions scaled axially about the scanner
+//                  centre), plus clause selfconsistent: get_LOR(b) is the line (get_s, get_m, get_tantheta, get_phi)(b), and every detector
+//                  pair of get_all_det_pos_pairs_for_bin(b) maps back to b through get_bin_for_det_pos_pair.
+//                  gs=2 set_ring_spacing(1.5x), use, set back; gs=3 set_min/max_ring_difference of the outer segments (narrowed if compressed,
+//                  else widened), use, set back; gs=4 set_azimuthal_angle_sampling(1.5x) + set_azimuthal_angle_offset(+0.3), use, set back;
+//                  gs=7 (arc-corrected) set_tangential_sampling(1.5x), use, set back; gs=8 set_num_axial_poss_per_segment(n-1), use, set back
+//                  with set_min/max_axial_pos_num: the object equals the fresh one again => all clauses + derived_as_fresh.
 #include "ref_pdi.h"
 #include "ref_coords.h"
 #include "stir/LORCoordinates.h"
@@ -63,20 +74,40 @@ struct Der
   int bnt = 0;  // number of tangential positions of the base object (0: the scanner's default = maximum)
   int btm = 0;  // TOF mashing factor of the base object (0: non-TOF)
   int warm = 1; // 1: the base object is used (all kinds of queries) before the derivation
+  int gs = 0;   // mode 5: which geometry setter(s) are applied to the clone of the used object
+  bool own_spacing() const { return mode == 5 && gs == 1; }
+  bool own_phi_offset() const { return mode == 5 && gs == 5; }
+  bool modified_geometry() const { return mode == 5 && (gs == 1 || gs == 5 || gs == 6); }
+  const char* setter() const
+  {
+    switch (gs)
+      {
+      case 1: return "set_ring_spacing";
+      case 2: return "set_ring_spacing_and_back";
+      case 3: return "set_min_max_ring_difference_and_back";
+      case 4: return "set_azimuthal_angle_sampling_offset_and_back";
+      case 5: return "set_azimuthal_angle_offset";
+      case 6: return "set_tangential_sampling";
+      case 7: return "set_tangential_sampling_and_back";
+      case 8: return "set_num_axial_poss_per_segment_and_back";
+      default: return "none";
+      }
+  }
   const char* name() const
   {
-    switch (mode) { case 1: return "clone_setters"; case 2: return "ssrb"; case 3: return "inplace_setters"; case 4: return "ssrb_segments"; default: return "none"; }
+    switch (mode) { case 5: return "clone_geometry_setters"; case 1: return "clone_setters"; case 2: return "ssrb"; case 3: return "inplace_setters"; case 4: return "ssrb_segments"; default: return "none"; }
   }
   std::string str() const
   {
-    return ";der=" + std::to_string(mode) + ";bvm=" + std::to_string(bvm) + ";bnt=" + std::to_string(bnt) + ";btm=" + std::to_string(btm) + ";warm=" + std::to_string(warm);
+    return ";der=" + std::to_string(mode) + ";bvm=" + std::to_string(bvm) + ";bnt=" + std::to_string(bnt) + ";btm=" + std::to_string(btm) + ";warm=" + std::to_string(warm)
+           + (mode == 5 ? ";gs=" + std::to_string(gs) : std::string());
   }
   static Der parse(const std::string& s)
   {
     auto m = vmc::kv(s);
     Der d;
     auto gi = [&](const char* k, int dflt) { auto it = m.find(k); return it == m.end() ? dflt : atoi(it->second.c_str()); };
-    d.mode = gi("der", 0); d.bvm = gi("bvm", 1); d.bnt = gi("bnt", 0); d.btm = gi("btm", 0); d.warm = gi("warm", 1);
+    d.mode = gi("der", 0); d.bvm = gi("bvm", 1); d.bnt = gi("bnt", 0); d.btm = gi("btm", 0); d.warm = gi("warm", 1); d.gs = gi("gs", 0);
     return d;
   }
 };
@@ -203,6 +234,84 @@ static shared_ptr<ProjDataInfo> make_derived(const Cfg& c, const Der& d, const s
   if (c.vm < 1 || d.bvm < 1 || (D / 2) % c.vm != 0 || (D / 2) % d.bvm != 0) throw std::runtime_error("harness: view mashing factor does not divide D/2");
   const int views = D / 2 / c.vm;
   const int nt = c.nt > 0 ? c.nt : (c.arc ? sc->get_default_num_arccorrected_bins() : sc->get_max_num_non_arccorrected_bins());
+  if (d.mode == 5)
+    {
+      // geometry setters on a clone of a used object of the configuration itself
+      shared_ptr<ProjDataInfo> base = rpdi::make_pdi(c, sc);
+      if (d.warm) warm_up(*base, *sc);
+      shared_ptr<ProjDataInfo> p(base->clone());
+      ProjDataInfoCylindrical* cyl = dynamic_cast<ProjDataInfoCylindrical*>(p.get());
+      ProjDataInfoCylindricalArcCorr* ac = dynamic_cast<ProjDataInfoCylindricalArcCorr*>(p.get());
+      if (!cyl || dynamic_cast<ProjDataInfoGenericNoArcCorr*>(p.get())) throw std::runtime_error("harness: geometry setters of ProjDataInfoCylindrical on generic data");
+      const int smin = p->get_min_segment_num(), smax = p->get_max_segment_num();
+      switch (d.gs)
+        {
+        case 1: cyl->set_ring_spacing(cyl->get_ring_spacing() * 1.5F); break;
+        case 2:
+          {
+            const float old = cyl->get_ring_spacing();
+            cyl->set_ring_spacing(old * 1.5F);
+            warm_up(*p, *sc);
+            cyl->set_ring_spacing(old);
+            break;
+          }
+        case 3:
+          {
+            const int omax = cyl->get_max_ring_difference(smax), omin = cyl->get_min_ring_difference(smin);
+            const int nmax = cyl->get_min_ring_difference(smax) < omax ? omax - 1 : omax + 1;
+            const int nmin = cyl->get_max_ring_difference(smin) > omin ? omin + 1 : omin - 1;
+            cyl->set_max_ring_difference(nmax, smax);
+            if (smin != smax || nmin <= nmax) cyl->set_min_ring_difference(nmin, smin);
+            warm_up(*p, *sc);
+            cyl->set_max_ring_difference(omax, smax);
+            cyl->set_min_ring_difference(omin, smin);
+            break;
+          }
+        case 4:
+          {
+            const float os = cyl->get_azimuthal_angle_sampling(), oo = cyl->get_azimuthal_angle_offset();
+            cyl->set_azimuthal_angle_sampling(os * 1.5F);
+            cyl->set_azimuthal_angle_offset(oo + 0.3F);
+            warm_up(*p, *sc);
+            cyl->set_azimuthal_angle_sampling(os);
+            cyl->set_azimuthal_angle_offset(oo);
+            break;
+          }
+        case 5:
+          if (!ac) throw std::runtime_error("harness: azimuthal offset of detector-based data is given by the detectors");
+          // a quarter of a view step: every phi stays inside [0,pi) (assert()-only precondition of the LOR classes)
+          cyl->set_azimuthal_angle_offset(cyl->get_azimuthal_angle_offset() + 0.25F * cyl->get_azimuthal_angle_sampling());
+          break;
+        case 6:
+          if (!ac) throw std::runtime_error("harness: tangential sampling of data without arc correction");
+          ac->set_tangential_sampling(ac->get_tangential_sampling() * 0.75F);
+          break;
+        case 7:
+          {
+            if (!ac) throw std::runtime_error("harness: tangential sampling of data without arc correction");
+            const float old = ac->get_tangential_sampling();
+            ac->set_tangential_sampling(old * 1.5F);
+            warm_up(*p, *sc);
+            ac->set_tangential_sampling(old);
+            break;
+          }
+        case 8:
+          {
+            VectorWithOffset<int> fewer(smin, smax), omin(smin, smax), omax(smin, smax);
+            for (int s = smin; s <= smax; ++s)
+              {
+                omin[s] = p->get_min_axial_pos_num(s); omax[s] = p->get_max_axial_pos_num(s);
+                fewer[s] = std::max(1, p->get_num_axial_poss(s) - 1);
+              }
+            p->set_num_axial_poss_per_segment(fewer);
+            warm_up(*p, *sc);
+            for (int s = smin; s <= smax; ++s) { p->set_min_axial_pos_num(omin[s], s); p->set_max_axial_pos_num(omax[s], s); }
+            break;
+          }
+        default: throw std::runtime_error("harness: unknown geometry setter");
+        }
+      return p;
+    }
   Cfg b = c;
   b.hist = 0; b.vm = d.bvm; b.nt = d.bnt; b.tm = c.tm > 0 ? std::max(1, d.btm) : 0; b.sr = 0; b.smin = b.smax = 0;
   if (d.mode == 4) { b.span = 1; b.ge = 0; }
@@ -282,6 +391,8 @@ static bool build_geo(Run& run, Geo& g)
   g.vm = g.D / 2 / g.V;
   g.reff = (double)g.sc->get_inner_ring_radius() + (double)g.sc->get_average_depth_of_interaction();
   g.spacing = g.sc->get_ring_spacing();
+  // geometry setters: the reference geometry is built with the derived object's OWN axial sampling
+  if (run.d.own_spacing()) g.spacing = g.cyl->get_ring_spacing();
   g.psi0 = g.sc->get_intrinsic_azimuthal_tilt();
   g.scale = g.reff + g.Rn * g.spacing + 1;
   g.pos.resize((size_t)g.D * g.Rn);
@@ -407,7 +518,7 @@ static void check_bins(Run& run, const Geo& g)
   std::vector<double> prev_ax_m((size_t)V * T);
   std::map<int, std::vector<float>> tth_store;
   long long n_bins = 0, n_rt = 0, n_exact = 0, n_step = 0, n_wrap = 0, n_miss_edge = 0, n_miss_tang = 0, n_miss_wrapseg = 0, n_ge2 = 0, n_incomplete = 0,
-            n_asym_range = 0, n_tie = 0, n_screen = 0, n_flip = 0, n_points = 0, n_coord_rejected = 0, n_lor_rejected = 0, n_tth_avg = 0, n_screen_v1 = 0, n_adjacent = 0, n_miss_adjacent = 0;
+            n_asym_range = 0, n_tie = 0, n_screen = 0, n_flip = 0, n_points = 0, n_coord_rejected = 0, n_lor_rejected = 0, n_tth_avg = 0, n_screen_v1 = 0, n_adjacent = 0, n_miss_adjacent = 0, n_points_skipped = 0, n_self_lor = 0, n_self_pairs = 0;
   bool badcast_reported = false, getlor_error_seen = false;
 
   auto seg_in = [&](int s) { return s >= smin && s <= smax; };
@@ -547,7 +658,9 @@ static void check_bins(Run& run, const Geo& g)
                   if (!sym_range) ++n_asym_range;
 
                   // ---------------- detection points reported by STIR (uncompressed data only)
-                  if (!compressed && g.vm == 1 && (g.na || g.ge) && have_ref && dps.size() == 1)
+                  if (!compressed && g.vm == 1 && (g.na || g.ge) && have_ref && dps.size() == 1 && run.d.own_spacing())
+                    ++n_points_skipped; // find_cartesian_coordinates_of_detection gives the PHYSICAL detector positions (scanner's ring spacing)
+                  else if (!compressed && g.vm == 1 && (g.na || g.ge) && have_ref && dps.size() == 1)
                     {
                       CartesianCoordinate3D<float> c1, c2;
                       if (g.na) g.na->find_cartesian_coordinates_of_detection(c1, c2, b0);
@@ -562,6 +675,39 @@ static void check_bins(Run& run, const Geo& g)
                       if (dd > tol_len)
                         run.viol("coords", "detection_points", "bin " + small::bin_str(b0) + ": find_cartesian_coordinates_of_detection gives (" + fstr(c1.x()) + "," + fstr(c1.y()) + "," + fstr(c1.z()) + ")-(" + fstr(c2.x()) + "," + fstr(c2.y()) + "," + fstr(c2.z())
                                                                    + ") but detectors " + rpdi::dp_str(e) + " are at (" + fstr(q1.x) + "," + fstr(q1.y) + "," + fstr(q1.z) + ")-(" + fstr(q2.x) + "," + fstr(q2.y) + "," + fstr(q2.z) + ")");
+                    }
+
+                  // ---------------- geometry setters: self-consistency of the object's own queries
+                  if (run.d.mode == 5)
+                    {
+                      SinoLOR lor;
+                      if (!small::throws([&] { p.get_LOR(lor, b0); }, &what))
+                        {
+                          ++n_self_lor;
+                          // compared as unoriented lines (the LOR classes keep phi in [0,pi)): brought to the orientation of the reported phi
+                          const double R = lor.radius(), s0 = R * std::sin((double)lor.beta());
+                          const double half = std::sqrt(std::max(1e-12, R * R - s0 * s0));
+                          rc::Line l0; l0.s = s0; l0.phi = lor.phi(); l0.m = ((double)lor.z1() + (double)lor.z2()) / 2; l0.tantheta = ((double)lor.z2() - (double)lor.z1()) / (2 * half);
+                          double dphi_l = 0;
+                          const rc::Line ll = rc::oriented_near(l0, phi_rep, &dphi_l);
+                          const double sl = ll.s, ml = ll.m, tl = ll.tantheta;
+                          const double cond = R * R / std::max(1e-9, R * R - sl * sl);
+                          if (std::fabs(sl - s_rep) > tol_len || std::fabs(ml - m_rep) > tol_len || std::fabs(tl - tth_rep) > 500 * EPSF * (1 + std::fabs(tth_rep)) * std::max(1.0, cond)
+                              || std::fabs(dphi_l) > tol_phi)
+                            run.viol("selfconsistent", "get_LOR_vs_coordinates", "bin " + small::bin_str(b0) + ": get_LOR gives s=" + fstr(sl) + " m=" + fstr(ml) + " tantheta=" + fstr(tl) + " phi=" + fstr(phi_rep + dphi_l)
+                                                                                     + " but get_s/get_m/get_tantheta/get_phi give " + fstr(s_rep) + " " + fstr(m_rep) + " " + fstr(tth_rep) + " " + fstr(phi_rep));
+                        }
+                      if (g.na)
+                        for (const DPP& e : dps)
+                          {
+                            Bin bb;
+                            ++n_self_pairs;
+                            if (g.na->get_bin_for_det_pos_pair(bb, e) != Succeeded::yes || !rpdi::same_bin(bb, b0))
+                              {
+                                run.viol("selfconsistent", "det_pos_pair_maps_not_inverse", "bin " + small::bin_str(b0) + " lists detector pair " + rpdi::dp_str(e) + ", which get_bin_for_det_pos_pair maps to another / no bin");
+                                break;
+                              }
+                          }
                     }
 
                   // ---------------- round trip
@@ -752,6 +898,10 @@ static void check_bins(Run& run, const Geo& g)
   ctx.count("bins_interleaved_between_adjacent_detectors", n_adjacent);
   ctx.count("generic_bins_reported_in_flipped_orientation", n_flip);
   ctx.count("detection_point_pairs_checked", n_points);
+  ctx.count("detection_point_pairs_skipped_own_ring_spacing", n_points_skipped);
+  ctx.count("selfconsistent_LORs_compared_with_coordinates", n_self_lor);
+  ctx.count("selfconsistent_detector_pairs_mapped_back", n_self_pairs);
+  ctx.count("evaluations", n_self_lor + n_self_pairs);
   ctx.count("bins_coordinates_refused_compressed_generic", n_coord_rejected);
   ctx.count("bins_get_LOR_refused_compressed_generic", n_lor_rejected);
   if (n_bins && (double)n_screen > 0.1 * n_bins) ctx.observe("more than 10% of the bins screened (|s| >= ring radius): " + run.cs);
@@ -774,6 +924,14 @@ static void check_derived(Run& run, const Geo& g)
   const ProjDataInfo &p = *g.pdi, &q = *g.fresh;
   ctx.count("derived_configs");
   ctx.count(std::string("derived_configs_") + run.d.name());
+  if (run.d.mode == 5) ctx.count(std::string("derived_configs_setter_") + run.d.setter());
+  if (run.d.modified_geometry())
+    {
+      // no freshly constructible configuration has this geometry: the self-consistency clauses were checked with the object's own sampling
+      ctx.count("derived_configs_geometry_of_no_fresh_configuration");
+      if ((*g.pdi == *g.fresh) || (*g.fresh == *g.pdi)) ctx.count("derived_modified_geometry_but_compares_equal_to_fresh");
+      return;
+    }
   if (run.d.bvm > run.c.vm) ctx.count("derived_configs_views_unmashed");
   if (run.d.bvm < run.c.vm) ctx.count("derived_configs_views_mashed");
   if (!run.d.warm) ctx.count("derived_configs_base_not_used_before");
@@ -906,7 +1064,7 @@ static void run_coords(vmc::Ctx& ctx, const std::string& cs)
   ctx.current("what=coords;geom=" + c.geom + ";arc=" + std::to_string(c.arc), cs);
   ctx.count("configurations");
   Geo g;
-  const std::string dkey = run.d.mode ? std::string(";derived=") + run.d.name() : std::string();
+  const std::string dkey = run.d.mode ? std::string(";derived=") + run.d.name() + (run.d.mode == 5 ? std::string(";setter=") + run.d.setter() : std::string()) : std::string();
   run.keybase = "family=" + std::string(c.geom == "blk" || c.geom == "gen" ? "generic" : (c.arc ? "cylarc" : "cylnoarc")) + dkey;
   if (!build_geo(run, g)) return;
   bool compressed = false, single = false;
@@ -944,6 +1102,8 @@ static void run_coords(vmc::Ctx& ctx, const std::string& cs)
                 const double near = v * M_PI / g.V + g.psi0 + (g.vm - 1) * M_PI / g.D;
                 if (!ref_from_pairs(g, dps, near, r)) throw std::runtime_error("harness: twin without detector pairs");
                 g.phi_centre[v] = near + r.dphi;
+                // geometry setters: the object's own azimuthal offset
+                if (run.d.own_phi_offset()) g.phi_centre[v] += (double)g.cyl->get_azimuthal_angle_offset() - (double)dynamic_cast<const ProjDataInfoCylindrical&>(*g.fresh).get_azimuthal_angle_offset();
               }
           }
         // The diagonal [d][d] of the (detector,detector)->(view,tangential position) table is never initialised by STIR; get_bin reads it when
@@ -1199,6 +1359,7 @@ static bool sc_is_not_cylindrical(int type)
 static void add_derived(std::vector<std::string>& out, bool thorough)
 {
   const size_t n0 = out.size();
+  std::vector<std::string> geo_setters; // der=5 units, appended after all others
   std::map<int, std::array<int, 3>> pre; // type -> D, T, default number of arc-corrected bins
   for (size_t i = 0; i < n0; ++i)
     {
@@ -1231,6 +1392,32 @@ static void add_derived(std::vector<std::string>& out, bool thorough)
         Der d; d.mode = mode; d.bvm = bvm; d.bnt = bnt; d.btm = btm; d.warm = warm;
         out.push_back("what=coords;" + c.str() + d.str());
       };
+      // geometry setters (der=5) on a clone of a used object of the configuration itself: cylindrical data, un-trimmed sampling, every view
+      // mashing and axial compression
+      if (!det && devs == 0)
+        {
+          auto gemit = [&](int gs) {
+            Der d; d.mode = 5; d.bvm = c.vm; d.bnt = c.nt; d.btm = c.tm; d.warm = 1; d.gs = gs;
+            geo_setters.push_back("what=coords;" + c.str() + d.str());
+          };
+          if (predefined)
+            {
+              if (c.vm == 1 && (thorough || c.tm == 0))
+                {
+                  gemit(1);
+                  if (thorough) { gemit(2); gemit(3); if (c.arc) { gemit(5); gemit(6); } }
+                }
+            }
+          else
+            {
+              const bool small_one = D <= 12 && (c.R <= 2 || c.vm == 1);
+              if (c.R >= 2 || thorough) gemit(1);
+              if ((c.R >= 2 && small_one) || thorough) { gemit(2); gemit(3); gemit(8); }
+              if ((D <= 12 && c.R <= 2) || thorough) gemit(4);
+              if (c.arc && ((D <= 16 && c.R <= 2) || thorough)) { gemit(5); gemit(6); }
+              if (c.arc && ((D <= 12 && c.R <= 2) || thorough)) gemit(7);
+            }
+        }
       if (predefined)
         {
           // database scanners: mashed views only, through SSRB and through the setters
@@ -1258,6 +1445,7 @@ static void add_derived(std::vector<std::string>& out, bool thorough)
       // SSRB combining the segments of span-1 data into the segments of an odd span (all of them complete)
       if (ssrb_ok && !c.ge && c.span >= 3 && c.span % 2 == 1 && c.md % c.span == (c.span - 1) / 2) emit(4, 1, 0, tm1, 1);
     }
+  out.insert(out.end(), geo_setters.begin(), geo_setters.end());
 }
 
 static std::vector<std::string> enumerate(bool thorough)
@@ -1344,7 +1532,10 @@ int main(int argc, char** argv)
              "coords configurations are enumerated twice: freshly constructed, and DERIVED (der=1..4: warm-up queries on a base object of finer or coarser sampling, then clone()/in place "
              "set_num_views + set_azimuthal_angle_offset, set_num_tangential_poss, reduce_segment_range, set_tof_mash_factor, or SSRB combining views / trimming / combining segments), "
              "with all clauses on the derived object plus derived_as_fresh (equal to the freshly constructed object => same coordinates, detector pairs per bin, bin per detector pair); "
-             "a derived configuration is a distinct case (its case string carries the derivation)";
+             "a derived configuration is a distinct case (its case string carries the derivation); "
+             "der=5: every public geometry setter of ProjDataInfoCylindrical / ArcCorr on a clone of a used object (set_ring_spacing, set_azimuthal_angle_offset, set_tangential_sampling changed for good: "
+             "all clauses with the reference geometry in the object's OWN sampling + clause selfconsistent (get_LOR == get_s/get_m/get_tantheta/get_phi, detector pairs of a bin map back to it); "
+             "set_ring_spacing, set_min/max_ring_difference, set_azimuthal_angle_sampling/offset, set_tangential_sampling, set_num_axial_poss_per_segment + set_min/max_axial_pos_num changed, used and set back: all clauses + derived_as_fresh)";
   ctx.assume("tolerances: lengths 500*eps_float*(ring radius + axial extent), angles 500*eps_float*pi, tan(theta) 500*eps_float*(1+|tan(theta)|), arc correction 2e-4 relative; a defect is O(bin size)");
   ctx.assume("cylindrical scanners: crystal d of ring r is at psi = 2 pi d/D + intrinsic tilt on the effective ring radius, z = (r-(R-1)/2)*ring spacing (cross-checked against find_cartesian_coordinates_of_detection, whose z is documented to be 0 in the first ring); blocks/generic: Scanner::get_coordinate_for_det_pos");
   ctx.assume("lines are compared as unoriented lines: (s,phi,tantheta) ~ (-s,phi+pi,-tantheta); generic geometries report phi in [0,pi), their coordinates are brought to the orientation near the nominal view angle before the monotonicity / antisymmetry checks");
@@ -1358,6 +1549,10 @@ int main(int argc, char** argv)
   ctx.assume("derived objects: set_num_views() is documented to leave the azimuthal offset to the caller; the derivation sets it as SSRB does (old offset + old sampling * (factor-1)/2). "
              "derived_as_fresh is only demanded when operator== holds both ways (counted: derived_equal_to_fresh / derived_not_equal_to_fresh); coordinates are compared with the tolerances above, "
              "detector-pair lists as sets, bins for detector pairs exactly (detector pairs d1 != d2; scanners with > 5e5 bins: rings {0,1,middle,last}, TOF bins {min,0,max} for one ring pair)");
+  ctx.assume("geometry setters (der=5): an object whose ring spacing / azimuthal offset / tangential sampling was changed describes detectors at z scaled about the scanner centre by own/scanner ring spacing "
+             "(rotated by the offset change; chords at t * own tangential sampling); find_cartesian_coordinates_of_detection (physical positions, scanner's ring spacing) is not compared for such objects (counted); "
+             "detector-based data: azimuthal angle sampling/offset, ring differences and axial position ranges are only changed temporarily (changed, object used, set back), because a detector-based object's "
+             "views and ring pairs are given by the detectors; the azimuthal offset is moved by a quarter view step so that every phi stays in [0,pi) (assert()-only precondition of the LOR classes)");
   ctx.assume("axial trimming, set_ring_radii_for_all_views, non-zero bed positions and HiDAC-like non-ring data are not enumerated");
   g_tmp = ctx.tmpdir + "/C12_" + std::to_string((long)getpid());
   std::filesystem::create_directories(g_tmp);
